@@ -106,17 +106,24 @@ static rt::Verdict run_case(const Case &c, const rt::Args &) {
     size_t K = c.ctxs.size();
     std::vector<Run> solo1(K), solo2(K), conc(K);
     for (size_t i = 0; i < K; i++) { solo1[i].cfg = solo2[i].cfg = conc[i].cfg = c.ctxs[i]; solo1[i].id = solo2[i].id = conc[i].id = (int)i; }
+    // In half of the cases the concurrent run comes first: anything the library creates lazily on first use (and would share between
+    // contexts) is then first touched by several threads at once, not by the sequential reference runs.
+    const bool conc_first = (c.ctxs[0].rounds + c.ctxs[0].yields + (int)K) % 2 == 0;
+    auto run_concurrent = [&]() {
+        pthread_barrier_t bar; pthread_barrier_init(&bar, nullptr, (unsigned)K);
+        for (size_t i = 0; i < K; i++) conc[i].bar = &bar;
+        std::vector<pthread_t> th(K);
+        for (size_t i = 0; i < K; i++) pthread_create(&th[i], nullptr, thread_main, &conc[i]);
+        for (size_t i = 0; i < K; i++) pthread_join(th[i], nullptr);
+    };
+    if (conc_first) { run_concurrent(); v.classes.push_back("concurrent-run-first"); }
     // reference: each program alone (twice: a program whose solo runs differ is not a usable reference)
     for (size_t i = 0; i < K; i++) { pthread_t t; pthread_create(&t, nullptr, thread_main, &solo1[i]); pthread_join(t, nullptr); }
     for (size_t i = 0; i < K; i++) { pthread_t t; pthread_create(&t, nullptr, thread_main, &solo2[i]); pthread_join(t, nullptr); }
     bool stable = true;
     for (size_t i = 0; i < K; i++) if (solo1[i].trace != solo2[i].trace || solo1[i].loop_ret != solo2[i].loop_ret || !solo1[i].setup_ok) stable = false;
     if (!stable) { v.inconclusive = true; v.classes.push_back("unstable-solo-reference"); return v; }
-    pthread_barrier_t bar; pthread_barrier_init(&bar, nullptr, (unsigned)K);
-    for (size_t i = 0; i < K; i++) conc[i].bar = &bar;
-    std::vector<pthread_t> th(K);
-    for (size_t i = 0; i < K; i++) pthread_create(&th[i], nullptr, thread_main, &conc[i]);
-    for (size_t i = 0; i < K; i++) pthread_join(th[i], nullptr);
+    if (!conc_first) run_concurrent();
     bool overlap = false;
     for (size_t i = 0; i < K; i++) {
         if (!conc[i].setup_ok) { v.fail("C14.5", "context " + std::to_string(i) + " could not be set up while other contexts were active"); break; }
@@ -133,7 +140,7 @@ static rt::Verdict run_case(const Case &c, const rt::Args &) {
 
 static rc::Gen<Case> gen_case(const rt::Args &) {
     using namespace rc;
-    auto cfg = gen::map(gen::tuple(gens::range(1, 4), gens::range(20, 300), gens::range(0, 4), gens::range(0, 2), gens::range(0, 4), gens::range(0, 2)), [](std::tuple<int, int, int, int, int, int> t) {
+    auto cfg = gen::map(gen::tuple(gens::range(1, 4), gens::range(20, 300), gens::range(0, 4), gens::range(0, 2), gens::range(0, 4), gens::weighted_values<int>({{1, 0}, {2, 1}})), [](std::tuple<int, int, int, int, int, int> t) {
         CtxCfg x; x.nmods = std::get<0>(t); x.rounds = std::get<1>(t); x.pub_every = std::get<2>(t); x.regex = std::get<3>(t); x.yields = std::get<4>(t); x.task = std::get<5>(t); return x; });
     return gen::map(gens::vec<CtxCfg>(2, 4, cfg), [](std::vector<CtxCfg> v) { Case c; c.ctxs = v; return c; });
 }
